@@ -85,10 +85,10 @@ INT_RANGE["usize"] = INT_RANGE["u64"]
 
 # ------------------------------------------------------------------------------------------------ values
 class Cell:
-    __slots__ = ("v", "ro", "name")
+    __slots__ = ("v", "ro", "name", "cow")
 
-    def __init__(self, v=None, ro=False, name=""):
-        self.v, self.ro, self.name = v, ro, name
+    def __init__(self, v=None, ro=False, name="", cow=None):
+        self.v, self.ro, self.name, self.cow = v, ro, name, cow
 
 
 class Uninit:
@@ -492,6 +492,15 @@ class Executor:
     def write_ref(self, ref, val):
         if ref.cell.ro:
             raise Panic(f"WRITE-TO-SHARED-STATE: store through a reference into read-only region {ref.cell.name}")
+        if ref.cell.cow is not None:
+            # a binding of an abstract map handed out mutably: the first store makes it a newer binding of that map
+            mref, key = ref.cell.cow
+            ref.cell.cow = None
+            from .std import map_insert
+            map_insert(self, mref, key, ref.cell.v)
+            m = self.read_ref(mref)
+            self.write_ref(Ref(mref.cell, mref.path + (("kv", len(m.layers) - 1),) + ref.path, True), val)
+            return
         if not ref.path:
             ref.cell.v = val
             return
@@ -666,6 +675,14 @@ class Executor:
                 return BoolV(z3.Not(x.t))
             if a["op"] == "Neg" and isinstance(x, IntV):
                 return self.wrap(-self.zi(x), x.ty)
+            if a["op"] == "PtrMetadata":
+                t = x
+                while isinstance(t, Ref):
+                    t = self.read_ref(t)
+                if isinstance(t, VecV):
+                    return IntV(len(t.items), "usize") if t.items is not None else IntV(vec_len(t.abs), "usize")
+                if isinstance(t, Str):
+                    return IntV(z3.Length(t.t), "usize")
             raise Unsupported(f"unary {a['op']} on {x}")
         if k == "len":
             v = self.read_ref(self.place_ref(fr, a["place"]))
@@ -879,6 +896,11 @@ class Executor:
     # -------------------------------------------------------------------- calls
     def call(self, fr, callee, args):
         self.prog.stats["calls"] += 1
+        m_ind = re.match(r"(move|copy) (.+)$", callee.strip())
+        if m_ind and fr is not None:
+            from .parse import parse_operand
+            f = self.operand(fr, parse_operand(callee.strip()))
+            return self.call_closure(f, args)
         if self.bind_stack[-1]:
             for pn, ty in self.bind_stack[-1].items():
                 callee = re.sub(r"(?<![A-Za-z0-9_:])" + pn + r"(?![A-Za-z0-9_])", ty, callee)
